@@ -457,3 +457,94 @@ func ShowVals(vals map[string]any) string {
 
 	return "{" + strings.Join(parts, " ") + "}"
 }
+
+// IncoherentSchema draws a schema built directly from Type literals in which
+// faults may be planted: relationships to missing types, inverses that are
+// missing, misnamed or on another type, FromType fields that do not name the
+// owner. About half of the schemas are left without any fault. All types are soft.
+func IncoherentSchema(t *rapid.T) *SchemaSpec {
+	n := rapid.IntRange(1, 5).Draw(t, "ntypes")
+	typeNames := NamePool(t, n, "tname")
+	relPool := NamePool(t, 5, "rname")
+	faulty := rapid.Bool().Draw(t, "faulty")
+
+	fault := func(label string, oneIn int) bool {
+		return faulty && rapid.IntRange(1, oneIn).Draw(t, label) == 1
+	}
+
+	specs := make([]TypeSpec, n)
+	used := make([]map[string]bool, n)
+
+	for i := range specs {
+		specs[i].Name = typeNames[i]
+		used[i] = map[string]bool{}
+
+		if rapid.Bool().Draw(t, "hasattr") {
+			specs[i].Attrs = []jsonapi.Attr{{Name: "x", Type: jsonapi.AttrTypeString}}
+			used[i]["x"] = true
+		}
+	}
+
+	anyType := func(label string) string {
+		pool := append([]string{"ghost"}, typeNames...)
+		return rapid.SampledFrom(pool).Draw(t, label)
+	}
+
+	ne := rapid.IntRange(0, 8).Draw(t, "nrels")
+	for e := 0; e < ne; e++ {
+		a := rapid.IntRange(0, n-1).Draw(t, "owner")
+		b := rapid.IntRange(0, n-1).Draw(t, "target")
+		x := rapid.SampledFrom(relPool).Draw(t, "x")
+
+		if used[a][x] {
+			continue
+		}
+
+		used[a][x] = true
+		rel := jsonapi.Rel{FromType: specs[a].Name, FromName: x, ToOne: rapid.Bool().Draw(t, "toOne"), ToType: specs[b].Name, FromOne: rapid.Bool().Draw(t, "fromOne")}
+
+		if fault("dangling", 6) {
+			rel.ToType = "ghost"
+		}
+
+		if rapid.IntRange(0, 2).Draw(t, "twoway") > 0 {
+			y := rapid.SampledFrom(relPool).Draw(t, "y")
+			rel.ToName = y
+
+			if fault("wrongFromType", 8) {
+				rel.FromType = anyType("wft")
+			}
+
+			switch {
+			case a == b && x == y:
+				// its own inverse: nothing to add
+			case fault("noInverse", 6):
+			case !used[b][y]:
+				used[b][y] = true
+				inv := jsonapi.Rel{FromType: specs[b].Name, FromName: y, ToOne: rel.FromOne, ToType: specs[a].Name, ToName: x, FromOne: rel.ToOne}
+
+				if fault("misnamed", 6) {
+					inv.ToName = rapid.SampledFrom(relPool).Draw(t, "misname")
+				}
+
+				if fault("invOtherType", 8) {
+					inv.ToType = anyType("iot")
+				}
+
+				if fault("invWrongFromType", 8) {
+					inv.FromType = anyType("iwft")
+				}
+
+				specs[b].Rels = append(specs[b].Rels, inv)
+			}
+		}
+
+		specs[a].Rels = append(specs[a].Rels, rel)
+	}
+
+	for i := range specs {
+		sort.Slice(specs[i].Rels, func(a, b int) bool { return specs[i].Rels[a].FromName < specs[i].Rels[b].FromName })
+	}
+
+	return BuildSchema(specs)
+}
